@@ -81,7 +81,9 @@ func (t *Tree) setBlock(name string, body *BlockNode) {
 }
 
 func (t *Tree) enrichError(err error) error {
-	if err, ok := err.(ParsingError); ok {
+	// No error type can satisfy ParsingError (parseError embeds a Pos field, so
+	// it cannot also have a Pos method); ask for what is needed here only.
+	if err, ok := err.(interface{ setTree(t *Tree) }); ok {
 		err.setTree(t)
 	}
 	return err
